@@ -147,7 +147,7 @@ func (f *famWrap) CommitSequence(leader int32, seq int64) {
 
 func (f *famWrap) AckSequence(leader int32, fn func(seq int64)) {
 	f.DataFamily.AckSequence(leader, func(seq int64) {
-		if f.skipAck != nil && f.skipAck() {
+		if f.skipAck != nil && f.skipAck() && os.Getenv("VERIF_C07_FORWARD_STALE_ACK") == "" {
 			return
 		}
 		fn(seq)
